@@ -2,7 +2,7 @@
    Only the property theorems live here; proofs are in Proofs/ConnState.v, Proofs/ConnError.v and
    Proofs/Idle.v. *)
 From Coq Require Import List ZArith NArith Bool.
-From GQ Require Import Model.ConnState Model.Idle Model.ConnError Proofs.ConnState Proofs.Idle Proofs.ConnError Proofs.ConnErrorLater Proofs.ConnErrorClean.
+From GQ Require Import Model.ConnState Model.Idle Model.ConnError Proofs.ConnState Proofs.Idle Proofs.ConnError Proofs.ConnErrorLater Proofs.ConnErrorClean Proofs.ConnErrorFlag.
 Import ListNotations.
 
 (* ---------------------------------------------------------------- the state word *)
@@ -44,11 +44,21 @@ Example c17_error_once_nonvacuous :
   word (g_sh g) = 8%N /\ term (g_sh g) = Some 5%N /\ quiescent g = true.
 Proof. vm_compute. repeat split; reflexivity. Qed.
 
-(* F40: update() of the public constant CLOSED (Granular(Closed), which has no row in the mapping!
-   table) reaches unreachable!(); update() of every state that has a row terminates normally *)
-Theorem c17_update_closed_const_refuted :
-  exists s, closed_const = Some s /\ fst (tstep (CUpdate s) PStart sh_init) = PPanic.
-Proof. exact p_c17_update_closed_const_refuted. Qed.
+(* F40 (repaired): every public state constant of state.rs has a row in the mapping! table, CLOSED
+   among them, and update() of every public constant is total and a forward move: it never panics,
+   and either returns None leaving the word alone, or returns the previous code, which is below *)
+Theorem c17_public_consts :
+  Forall (fun s => exists k, encode s = Some k) public_consts /\
+  (exists s, closed_const = Some s /\ In s public_consts /\ encode s = Some closed_code).
+Proof. exact p_c17_public_consts. Qed.
+
+Theorem c17_update_public : forall s sh, In s public_consts ->
+  exists k, encode s = Some k /\
+  let r := run_to_end 8 (CUpdate s) PStart sh in
+  fst r <> PPanic /\
+  ((fst r = PDone None /\ snd r = sh /\ (k <= word sh)%N) \/
+   (fst r = PDone (Some (word sh)) /\ (word sh < k)%N /\ word (snd r) = k)).
+Proof. exact p_c17_update_public. Qed.
 
 Theorem c17_update_total : forall s sh k, encode s = Some k ->
   fst (run_to_end 8 (CUpdate s) PStart sh) <> PPanic /\
@@ -108,16 +118,26 @@ Qed.
    without a connection error, then the error e, then ANY further history of operations of any
    kind (a second, racing error included): every sleeper registered at that moment is woken, no slot
    keeps a sleeper, and at every later point the connection is poisoned with e — so c17_release and
-   c17_release_no_data apply to every later operation.  ([c_fix23] is a constant field of the
-   state: no operation writes it.) *)
+   c17_release_no_data apply to every later operation.  ([c_fix23], the choice of the repaired
+   on_conn_error, is a constant of the state: c17_flag_constant.) *)
 Theorem c17_release_all : forall cfg m0 before e after,
   cm_init true cfg = Some m0 -> Forall (fun o => fst o <> 21%N) before ->
   let m := cm_exec m0 0 before in
-  c_fix23 m = true ->
   (forall t, In t (registered m) -> In t (c_woken (conn_error e m))) /\
   registered (conn_error e m) = [] /\
   forall idx, Poisoned e (cm_exec (conn_error e m) idx after).
-Proof. exact p_c17_release_all. Qed.
+Proof. exact p_c17_release_all'. Qed.
+
+(* no operation of any history writes the flag that selects which on_conn_error the model runs *)
+Theorem c17_flag_constant : forall ops m idx, c_fix23 (cm_exec m idx ops) = c_fix23 m.
+Proof. exact fx_cm_exec. Qed.
+
+(* a poll that answers Pending leaves its task number in a waker slot of the component it waits on
+   (one step of the registration invariant; the invariant over whole histories - every parked task
+   is in a slot or in the woken list - is NOT proved, see the report) *)
+Theorem c17_pending_registers : forall m t k,
+  fst (snd (poll m t k)) = 0%Z -> In t (all_slots (fst (poll m t k))).
+Proof. exact p_c17_pending_registers. Qed.
 
 (* F23 (tree as it stood, [c_fix23 = false]): a task parked on the stream limit is registered, is not
    woken by the connection error and stays parked; every OTHER registered sleeper is woken *)
@@ -142,22 +162,39 @@ Local Open Scope Z_scope.
 
 Theorem c17_idle_not_before : forall m d evs,
   let s := ev_exec (st_init m d) evs in
-  let g := ghost_run (st_init m d) (mkgh None None) evs in
+  let g := ghost_run (st_init m d) ghost_init evs in
   snd (health (s_cfg s) (s_tm s) (s_now s)) = HTimeout ->
   max_idle (s_cfg s) <> 0 /\
   (exists t0, g_last_eff g = Some t0 /\ d + max_idle (s_cfg s) < s_now s - t0) /\
   (forall tr, g_last_rcvd g = Some tr -> max_idle (s_cfg s) < s_now s - tr).
 Proof. exact p_c17_idle_not_before. Qed.
 
+(* [g_last_eff]: the last restart of the idle period in RFC 9000 10.1 terms - a received packet with
+   effective payload, or the FIRST effective packet sent after a receive.
+   Once a health check has seen that restart more than defer old, every health check later than
+   max_idle after it answers TimeOut as long as nothing is received, WHATEVER we keep sending: once
+   an effective packet has been sent since the last receive, retransmissions do not postpone it *)
 Theorem c17_idle_after : forall m d pre q t0,
   let s := ev_exec (st_init m d) pre in
   last_eff (s_tm s) = Some t0 -> d < s_now s - t0 ->
   forallb quiet_ev q = true ->
+  (sent_since (s_tm s) = true \/ forallb not_eff_send q = true) ->
   let s1 := fst (ev_step s EHealth) in
   let s2 := ev_exec s1 q in
   max_idle (s_cfg s2) <> 0 -> 0 <= max_idle (s_cfg s2) -> max_idle (s_cfg s2) < s_now s2 - s_now s ->
   snd (health (s_cfg s2) (s_tm s2) (s_now s2)) = HTimeout.
 Proof. exact p_c17_idle_after. Qed.
+
+(* F65 regression: effective packets every 5 ms into a dead network, max_idle 20 ms: the rule before
+   the repair (every send restarts the idle period) has still not timed out after 42 ms, the
+   repaired rule has *)
+Example c17_idle_retransmit_regression :
+  let old := ev_exec_f65 (st_init 20000 0) f65_history in
+  let new := ev_exec (st_init 20000 0) f65_history in
+  s_now old = 42000 /\
+  snd (health (s_cfg old) (s_tm old) (s_now old)) <> HTimeout /\
+  snd (health (s_cfg new) (s_tm new) (s_now new)) = HTimeout.
+Proof. exact p_c17_idle_retransmit_regression. Qed.
 
 Example c17_idle_nonvacuous :
   run_idle [100; 50] [(2%N, [2]); (1%N, [51]); (4%N, []); (1%N, [100]); (4%N, []); (1%N, [1]); (4%N, [])]
@@ -175,17 +212,21 @@ Print Assumptions c17_order.
 Print Assumptions c17_table.
 Print Assumptions c17_error_once.
 Print Assumptions c17_error_once_nonvacuous.
-Print Assumptions c17_update_closed_const_refuted.
+Print Assumptions c17_public_consts.
+Print Assumptions c17_update_public.
 Print Assumptions c17_update_total.
 Print Assumptions c17_release_wakes.
 Print Assumptions c17_release_poisons.
 Print Assumptions c17_release.
 Print Assumptions c17_release_no_data.
 Print Assumptions c17_release_all.
+Print Assumptions c17_flag_constant.
+Print Assumptions c17_pending_registers.
 Print Assumptions c17_release_refuted.
 Print Assumptions c17_release_but_sid.
 Print Assumptions c17_release_nonvacuous.
 Print Assumptions c17_idle_not_before.
 Print Assumptions c17_idle_after.
+Print Assumptions c17_idle_retransmit_regression.
 Print Assumptions c17_idle_nonvacuous.
 Print Assumptions c17_negotiate.
